@@ -72,8 +72,14 @@ class Template:
                 f = a[0]
                 return [("field", f[1], f[2], f[3], b[0][1], "truthy")]
             return [("?", norm(e))]
+        if isinstance(e, ast.NamedExpr) and isinstance(e.target, ast.Name):
+            self.env[e.target.id] = [e.value]
+            return self.of(e.value, depth + 1)
         if isinstance(e, ast.Call):
             f = e.func
+            if isinstance(f, ast.Name) and f.id == "getattr" and len(e.args) == 2 and not e.keywords \
+                    and isinstance(e.args[1], ast.Constant) and isinstance(e.args[1].value, str):
+                return self.of(ast.Attribute(value=e.args[0], attr=e.args[1].value, ctx=ast.Load()), depth + 1)
             if isinstance(f, ast.Name) and f.id in ("str", "repr") and len(e.args) == 1:
                 return self._apply(self.of(e.args[0], depth + 1), "", "s" if f.id == "str" else "r")
             if isinstance(f, ast.Name) and f.id == "format" and 1 <= len(e.args) <= 2:
@@ -96,7 +102,97 @@ class Template:
             return [("field", norm(e), "", None, None, None)]
         return [("?", norm(e))]
 
+    # -- sequences of printed values (for "...".format(*parts)) ---------------------------------
+    def _const_value(self, e, depth=0):
+        """constant tables the printer is driven by: tuples / lists of constants, zip() of such,
+        local names and class-level attributes bound to them; raises ValueError otherwise"""
+        if depth > 8:
+            raise ValueError("depth")
+        if isinstance(e, ast.Constant):
+            return e.value
+        if isinstance(e, (ast.Tuple, ast.List)):
+            return tuple(self._const_value(x, depth + 1) for x in e.elts)
+        if isinstance(e, ast.Name):
+            if e.id in self.env and len(self.env[e.id]) == 1:
+                return self._const_value(self.env[e.id][0], depth + 1)
+            if e.id in self.consts and e.id not in self.env:
+                return self.consts[e.id]
+            for st in self.cm.tree.body:
+                if isinstance(st, ast.Assign) and len(st.targets) == 1 and isinstance(st.targets[0], ast.Name) \
+                        and st.targets[0].id == e.id and e.id not in self.env:
+                    return self._const_value(st.value, depth + 1)
+                if isinstance(st, ast.AnnAssign) and isinstance(st.target, ast.Name) and st.target.id == e.id \
+                        and st.value is not None and e.id not in self.env:
+                    return self._const_value(st.value, depth + 1)
+            raise ValueError("name " + e.id)
+        if isinstance(e, ast.Attribute) and isinstance(e.value, ast.Name):
+            cls = getattr(self.fn, "_cls", None)
+            first = self.fn.args.args[0].arg if self.fn.args.args else None
+            if e.value.id in (first, cls) and cls in self.cm.classes:
+                for st in self.cm.classes[cls].body:
+                    if isinstance(st, ast.Assign) and len(st.targets) == 1 and isinstance(st.targets[0], ast.Name) \
+                            and st.targets[0].id == e.attr:
+                        return self._const_value(st.value, depth + 1)
+                    if isinstance(st, ast.AnnAssign) and isinstance(st.target, ast.Name) and st.target.id == e.attr \
+                            and st.value is not None:
+                        return self._const_value(st.value, depth + 1)
+            raise ValueError("attribute")
+        if isinstance(e, ast.Call) and isinstance(e.func, ast.Name) and e.func.id == "zip" and not e.keywords:
+            return tuple(zip(*[self._const_value(a, depth + 1) for a in e.args]))
+        if isinstance(e, ast.Call) and isinstance(e.func, ast.Name) and e.func.id in ("tuple", "list") \
+                and len(e.args) == 1:
+            return tuple(self._const_value(e.args[0], depth + 1))
+        if isinstance(e, ast.Call) and isinstance(e.func, ast.Name) and e.func.id == "enumerate" and e.args:
+            start = self._const_value(e.args[1], depth + 1) if len(e.args) > 1 else 0
+            return tuple(enumerate(self._const_value(e.args[0], depth + 1), start))
+        raise ValueError("expression")
+
+    def seq_of(self, e, depth=0):
+        """the templates of the elements of a list the printer builds, or None"""
+        if depth > 8:
+            return None
+        if isinstance(e, (ast.List, ast.Tuple)):
+            return [self.of(x, depth + 1) for x in e.elts]
+        if isinstance(e, ast.Name) and e.id in self.env and len(self.env[e.id]) == 1:
+            return self.seq_of(self.env[e.id][0], depth + 1)
+        if isinstance(e, ast.Call) and isinstance(e.func, ast.Name) and e.func.id in ("list", "tuple") and len(e.args) == 1:
+            return self.seq_of(e.args[0], depth + 1)
+        if isinstance(e, (ast.ListComp, ast.GeneratorExp)) and len(e.generators) == 1 and not e.generators[0].ifs:
+            g = e.generators[0]
+            try:
+                rows = self._const_value(g.iter)
+            except ValueError:
+                return None
+            out = []
+            for row in rows:
+                binding = {}
+                if isinstance(g.target, ast.Name):
+                    binding[g.target.id] = row
+                elif isinstance(g.target, (ast.Tuple, ast.List)) and isinstance(row, tuple) \
+                        and len(row) == len(g.target.elts) and all(isinstance(t, ast.Name) for t in g.target.elts):
+                    for t, v in zip(g.target.elts, row):
+                        binding[t.id] = v
+                else:
+                    return None
+                if not all(isinstance(v, (str, int, float, bool, type(None))) for v in binding.values()):
+                    return None
+                elt = _SubstConst(binding).visit(_copy(e.elt))
+                out.append(self.of(elt, depth + 1))
+            return out
+        return None
+
     def _format(self, fmt, args, depth):
+        if any(isinstance(a, ast.Starred) for a in args):
+            flat = []
+            for a in args:
+                if isinstance(a, ast.Starred):
+                    seq = self.seq_of(a.value, depth + 1)
+                    if seq is None:
+                        return [("?", "*" + norm(a.value))]
+                    flat.extend(("tmpl", t) for t in seq)
+                else:
+                    flat.append(a)
+            args = flat
         out = []
         auto = 0
         try:
@@ -119,7 +215,9 @@ class Template:
             if idx >= len(args):
                 out.append(("?", "missing format argument"))
                 continue
-            out.extend(self._apply(self.of(args[idx], depth + 1), spec or "", conv))
+            a_ = args[idx]
+            tmpl = a_[1] if isinstance(a_, tuple) and a_ and a_[0] == "tmpl" else self.of(a_, depth + 1)
+            out.extend(self._apply(tmpl, spec or "", conv))
         return _merge(out)
 
     @staticmethod
@@ -136,6 +234,10 @@ class Template:
 
     def _ifexp(self, e, depth):
         test = e.test
+        for x in ast.walk(test):
+            # (value := <expr>) in the test: the branches print that value
+            if isinstance(x, ast.NamedExpr) and isinstance(x.target, ast.Name):
+                self.env[x.target.id] = [x.value]
         body, orelse = self.of(e.body, depth + 1), self.of(e.orelse, depth + 1)
         neg = False
         subj = None
@@ -146,7 +248,11 @@ class Template:
             t = t.operand
         if isinstance(t, ast.Compare) and len(t.ops) == 1 and isinstance(t.comparators[0], ast.Constant) \
                 and t.comparators[0].value is None and isinstance(t.ops[0], (ast.Is, ast.IsNot, ast.Eq, ast.NotEq)):
-            subj = norm(t.left)
+            left = t.left.value if isinstance(t.left, ast.NamedExpr) else t.left
+            subj = norm(left)
+            sf = self.of(left, depth + 1)
+            if len(sf) == 1 and sf[0][0] == "field" and sf[0][4] is None:
+                subj = sf[0][1]
             kind = "none"
             if isinstance(t.ops[0], (ast.Is, ast.Eq)):
                 neg = not neg     # 'x is None' selects the absent branch first
@@ -174,6 +280,21 @@ class Template:
                 seen += 1
             return x
         return resolve(a) == resolve(b)
+
+
+def _copy(n):
+    import copy as _c
+    return _c.deepcopy(n)
+
+
+class _SubstConst(ast.NodeTransformer):
+    def __init__(self, binding):
+        self.binding = binding
+
+    def visit_Name(self, n):
+        if isinstance(n.ctx, ast.Load) and n.id in self.binding:
+            return ast.copy_location(ast.Constant(value=self.binding[n.id]), n)
+        return n
 
 
 def _merge(parts):
